@@ -3,6 +3,7 @@ package checks
 import (
 	"fmt"
 	"strings"
+	"sync"
 
 	"go.uber.org/dig"
 
@@ -418,11 +419,6 @@ func invokeCycleRule(prefix string, r *h.Run, st *h.Step, hit func(string)) []Vi
 	return vs
 }
 
-// c05Programs enumerates the program space of a tier.
-type c05Space struct {
-	progs []c05Program
-}
-
 func perms(n int) [][]int {
 	var out [][]int
 	var rec func(cur []int, used []bool)
@@ -490,23 +486,58 @@ func ring(n int, chords ...[2]int) [][]int {
 	return adj
 }
 
-func c05Space1(tier string) []c05Program {
-	q := quick(tier)
-	var out []c05Program
-	add := func(n int, graphs [][][]int, kinds []c05Kind, trees []int, places [][]int, orders [][]int, lates []int) {
-		for _, g := range graphs {
-			for _, k := range kinds {
-				for _, t := range trees {
-					for _, pl := range places {
-						for _, o := range orders {
-							for _, l := range lates {
-								out = append(out, c05Program{n: n, adj: g, kind: k, tree: t, place: pl, order: o, late: l})
-							}
-						}
-					}
-				}
-			}
+// c05Block is a cartesian block of programs, decoded from an index.
+type c05Block struct {
+	n      int
+	graphs [][][]int
+	kinds  []c05Kind
+	trees  []int
+	places [][]int
+	orders [][]int
+	lates  []int
+}
+
+func (b c05Block) size() int {
+	return len(b.graphs) * len(b.kinds) * len(b.trees) * len(b.places) * len(b.orders) * len(b.lates)
+}
+
+func (b c05Block) at(i int) c05Program {
+	l := b.lates[i%len(b.lates)]
+	i /= len(b.lates)
+	o := b.orders[i%len(b.orders)]
+	i /= len(b.orders)
+	pl := b.places[i%len(b.places)]
+	i /= len(b.places)
+	t := b.trees[i%len(b.trees)]
+	i /= len(b.trees)
+	k := b.kinds[i%len(b.kinds)]
+	i /= len(b.kinds)
+	return c05Program{n: b.n, adj: b.graphs[i], kind: k, tree: t, place: pl, order: o, late: l}
+}
+
+type c05Space struct {
+	blocks []c05Block
+	total  int
+}
+
+func (s *c05Space) at(i int) c05Program {
+	for _, b := range s.blocks {
+		if n := b.size(); i < n {
+			return b.at(i)
+		} else {
+			i -= n
 		}
+	}
+	panic("c05Space: index out of range")
+}
+
+func c05Space1(tier string) *c05Space {
+	q := quick(tier)
+	sp := &c05Space{}
+	add := func(n int, graphs [][][]int, kinds []c05Kind, trees []int, places [][]int, orders [][]int, lates []int) {
+		b := c05Block{n, graphs, kinds, trees, places, orders, lates}
+		sp.blocks = append(sp.blocks, b)
+		sp.total += b.size()
 	}
 	all5 := []int{0, 1, 2, 3, 4}
 	kindsQ := []c05Kind{kPlain, kOptional, kGroup, kSoft, kMixed}
@@ -518,14 +549,12 @@ func c05Space1(tier string) []c05Program {
 		// every digraph on 3 keys: plain/optional/group/mixed; every placement; every order; both scope timings
 		add(3, offDiagonalGraphs(3), kindsQ, []int{1}, placements(3, all5), perms(3), []int{0, 1})
 		add(3, offDiagonalGraphs(3), []c05Kind{kPlain, kGroup}, []int{0}, placements(3, all5), perms(3), []int{0})
-		// rings and rings + one chord on 4 keys, plain edges, every placement, 4 rotations of the order
+		// rings and rings + one chord on 4 keys, plain edges, every placement, some orders
 		g4 := [][][]int{ring(4), ring(4, [2]int{0, 2}), ring(4, [2]int{2, 0}), ring(4, [2]int{1, 3})}
 		add(4, g4, []c05Kind{kPlain}, []int{1}, placements(4, all5), [][]int{{0, 1, 2, 3}, {3, 2, 1, 0}, {1, 3, 0, 2}}, []int{0})
 		add(4, g4[:1], []c05Kind{kPlain}, []int{0}, placements(4, all5), [][]int{{0, 1, 2, 3}, {2, 0, 3, 1}}, []int{0})
 	} else {
 		add(3, offDiagonalGraphs(3), kindsT, []int{0, 1}, placements(3, all5), perms(3), []int{0, 1})
-		// every digraph on 4 keys with out-degree <= 2 would be 11^4 graphs; rings, chords and
-		// all graphs with <= 5 edges containing a Hamiltonian ring prefix are taken instead
 		var g4 [][][]int
 		g4 = append(g4, ring(4))
 		for a := 0; a < 4; a++ {
@@ -539,12 +568,12 @@ func c05Space1(tier string) []c05Program {
 		g4 = append(g4, [][]int{{1}, {2}, {3}, {}}, [][]int{{1}, {2}, {3}, {1}}, [][]int{{1, 2}, {3}, {3}, {0}}, [][]int{{1}, {0, 2}, {3}, {2}})
 		add(4, g4, []c05Kind{kPlain, kOptional, kGroup, kMixed}, []int{0, 1}, placements(4, all5), perms(4), []int{0})
 	}
-	return out
+	return sp
 }
 
-func c05ProgramItem(progs []c05Program) func(i int, stats map[string]int) []Violation {
+func c05ProgramItem(progs *c05Space) func(i int, stats map[string]int) []Violation {
 	return func(i int, stats map[string]int) []Violation {
-		p := progs[i/2]
+		p := progs.at(i / 2)
 		deferred := i%2 == 1
 		var vs []Violation
 		ops := p.ops()
@@ -594,12 +623,12 @@ type c05Risky struct {
 
 // risky invocations: (program, defer, key, scope) whose resolution traverses a
 // runtime cycle that no single scope's graph contains.
-func c05RiskyList(progs []c05Program) []c05Risky {
+func c05RiskyList(progs *c05Space) []c05Risky {
 	var out []c05Risky
 	type verdict struct{ pairs [][2]int }
 	cache := map[string]*verdict{}
-	for pi := range progs {
-		p := progs[pi]
+	for pi := 0; pi < progs.total; pi++ {
+		p := progs.at(pi)
 		if p.n < 3 {
 			continue
 		}
@@ -646,10 +675,10 @@ func c05RiskyList(progs []c05Program) []c05Risky {
 	return out
 }
 
-func c05RiskyItem(progs []c05Program, risky []c05Risky) func(i int, stats map[string]int) []Violation {
+func c05RiskyItem(progs *c05Space, risky func() []c05Risky) func(i int, stats map[string]int) []Violation {
 	return func(i int, stats map[string]int) []Violation {
-		rk := risky[i]
-		p := progs[rk.prog]
+		rk := risky()[i]
+		p := progs.at(rk.prog)
 		r := h.NewRun(h.Config{Defer: rk.deferred})
 		for _, op := range p.ops() {
 			r.Apply(op)
@@ -684,13 +713,24 @@ func c05Units(tier string) []Unit {
 			Describe: func(i int) string { return fmt.Sprintf("n=5 off-diagonal bits=%#x order=%d", i>>1, i&1) }}})
 	}
 	progs := c05Space1(tier)
-	units = append(units, Unit{En: &explore.Enum{Name: "programs", N: 2 * len(progs), Run: c05ProgramItem(progs),
-		Describe: func(i int) string { return fmt.Sprintf("defer=%v %s", i%2 == 1, progs[i/2]) }}})
-	risky := c05RiskyList(progs)
-	units = append(units, Unit{En: &explore.Enum{Name: "invokes-through-cross-view-cycles", N: len(risky), Run: c05RiskyItem(progs, risky),
+	units = append(units, Unit{En: &explore.Enum{Name: "programs", N: 2 * progs.total, Run: c05ProgramItem(progs),
+		Describe: func(i int) string { return fmt.Sprintf("defer=%v %s", i%2 == 1, progs.at(i/2)) }}})
+	// the list of risky invocations is computed lazily: the master needs its
+	// length, a worker only needs it when it is handed a job of that unit
+	var once sync.Once
+	var riskyList []c05Risky
+	risky := func() []c05Risky {
+		once.Do(func() { riskyList = c05RiskyList(progs) })
+		return riskyList
+	}
+	n := 0
+	if !explore.IsWorker {
+		n = len(risky())
+	}
+	units = append(units, Unit{En: &explore.Enum{Name: "invokes-through-cross-view-cycles", N: n, Run: c05RiskyItem(progs, risky),
 		Describe: func(i int) string {
-			rk := risky[i]
-			p := progs[rk.prog]
+			rk := risky()[i]
+			p := progs.at(rk.prog)
 			p.specs()
 			return fmt.Sprintf("class=cross-view-runtime-cycle defer=%v invoke %s from s%d after %s", rk.deferred, c05Types[rk.key], rk.s, p)
 		}}})
